@@ -84,7 +84,8 @@ pub fn gen(seed: u64, _idx: u64, tier: Tier) -> Scenario {
             }
             2 => {
                 let inner = cmd(&mut r, &mut uniq, true);
-                let mut a = if r.chance(1, 3) { vec![b("EVALSHA"), b("@SHA@"), b("0")] } else { vec![b("EVAL"), b(WRAP), b("0")] };
+                // (a script whose write took effect has to be in the log whatever it replies afterwards: an error reply, an abort)
+                let mut a = if r.chance(1, 3) { vec![b("EVALSHA"), b("@SHA@"), b("0")] } else { vec![b("EVAL"), b(*r.pick(&[WRAP, WRAP, WRAP, "redis.call(unpack(ARGV)); return redis.error_reply('after the write')", "redis.call(unpack(ARGV)); return redis.call('NOSUCHCOMMAND')", "redis.call(unpack(ARGV)); error('after the write')", "redis.call(unpack(ARGV)); return redis.pcall('INCR')"])), b("0")] };
                 a.extend(inner);
                 sc.steps.push(Step::Send { c, a, split: vec![] });
             }
